@@ -17,7 +17,7 @@ from mc.run import Stats
 
 VERIF = os.path.dirname(os.path.dirname(os.path.dirname(os.path.abspath(__file__))))
 ASSUME = [
-    "8 probe texts: plain ASAP, project ALAP, two scenarios with limits, zoned resources, 15-min resolution with sub-slot efforts, a text that is rejected, a text with own JSON+CSV reports, a nested-container text with gaps",
+    "9 probe texts: a task that does not fit under its container's limit, plain ASAP, project ALAP, two scenarios with limits, zoned resources, 15-min resolution with sub-slot efforts, a text that is rejected, a text with own JSON+CSV reports, a nested-container text with gaps",
     "operation alphabet: parse(i) for each probe, reschedule(last), reports(last), engine(i) = scriptplan.cli.main.run_scriptplan on probe i for three probes, abort(i) = parse+schedule of probe i killed by an injected MemoryError at its second task placement (a failing earlier call); all histories up to depth 2 (quick) / 3 (thorough), each in one fresh interpreter",
     "the clock macros ${now}/${today} and Project 'now' are excluded (they are defined to depend on the wall clock)",
     "hash seeds {0,1,2,3,VERIF_SEED} in fresh processes; pure-Python and compiled extensions are compared in C13",
@@ -47,6 +47,10 @@ def probes():
                                 "tasks": [T("a", 90), T("run", 900, "rd"), T("bad", 30, deps=["!bad"])],
                                 "reports": [rep, 'taskreport leafs "leafs" {\n  formats csv\n  columns id, end\n  leaftasksonly true\n}']}))
     texts.append(render.render(c04.build("S4", [("g.c", "g.h"), ("d", "g")], ("end", "90min"), "rel", "container", True, "asap")) + rep + "\n")
+    # a task that does not fit under its container's limit on the first pass (a second schedule() must not place it)
+    texts.append(render.render({"dur": "1w", "resources": [{"id": "r1", "rate": 30.0}],
+                                "tasks": [{"id": "g", "limits": {"dailymax": "2h"}, "children": [T("a", 240, prio=900), T("x", 120, sched="alap", end="2025-01-07-17:00")]},
+                                          T("z", 60, limits={"weeklymax": "1h"}), T("z2", 600, "r1", limits={"dailymax": "1h"})], "reports": [rep]}))
     return texts
 
 
